@@ -419,6 +419,140 @@ theorem run_split (pre post : List Event) (e : Event) (s : State) (os : List Out
       simp
 
 
+/-! ### a loop in the middle of its batch attacks a hunted host -/
+
+/-- the lookup of a loop that is writing its batch still holds: its MAC is in the hunt list and the
+    handler is open (hunt list and `closed` change only under the mutex the loop holds) -/
+def SendHunted (s : State) : Prop :=
+  ∀ i p, (s.loops i).pc = .send p → (s.loops i).mac ∈ s.hunt ∧ s.closed = false
+
+theorem sendHunted_init : SendHunted {} := by intro i p hp; simp at hp
+
+theorem sendHunted_step {s s' : State} {e : Event} {o : Out} (hI : Inv s) (h : SendHunted s)
+    (hs : step s e = some (s', o)) : SendHunted s' := by
+  have nosend : s.holder = none → ∀ i p, (s.loops i).pc ≠ .send p := fun hf i p hp => by
+    have := (hI.holderIff i).2 ⟨p, hp⟩
+    rw [hf] at this; cases this
+  cases e with
+  | rxOther => simp only [step] at hs; cases hs; exact h
+  | envRepeat v => simp only [step] at hs; cases hs; exact h
+  | close =>
+    simp only [step] at hs
+    split at hs
+    · rename_i hf; cases hs
+      intro i p hp; exact absurd hp (nosend hf i p)
+    · cases hs
+  | ra r =>
+    rcases step_ra_cases s r s' o hs with rfl | rfl | ⟨hdr, o', rfl⟩
+    · exact h
+    · exact h
+    · obtain ⟨f1, f2, f3, _, _, _, _⟩ := learn_fields { s with rep := s.rep + 1 } r hdr o'
+      intro i p hp
+      rw [f3] at hp ⊢
+      rw [f1, f2]
+      exact h i p hp
+  | stopHunt mac eff =>
+    simp only [step] at hs
+    split at hs
+    · split at hs
+      · rename_i hf; cases hs
+        intro i p hp; exact absurd hp (nosend hf i p)
+      · cases hs
+    · cases hs; exact h
+  | startHunt mac cls =>
+    simp only [step] at hs
+    split at hs
+    · cases hs; exact h
+    · split at hs
+      · cases hs; exact h
+      · split at hs
+        · cases hs
+        · rename_i hf
+          have hf' : s.holder = none := by simpa [free] using hf
+          split at hs
+          · cases hs; exact h
+          · cases hs
+            intro i p hp
+            by_cases hi : i = s.nloops
+            · subst hi; simp at hp
+            · simp only [updLoop_other _ _ _ _ hi] at hp
+              exact absurd hp (nosend hf' i p)
+  | wake j =>
+    simp only [step] at hs
+    split at hs
+    · cases hs
+      intro i p hp
+      by_cases hi : i = j
+      · subst hi; simp at hp
+      · simp only [updLoop_other _ _ _ _ hi] at hp ⊢; exact h i p hp
+    · cases hs
+  | send j r =>
+    simp only [step] at hs
+    split at hs
+    · rename_i q hq
+      split at hs
+      · split at hs
+        · cases hs
+          intro i p hp
+          by_cases hi : i = j
+          · subst hi; simp at hp
+          · simp only [updLoop_other _ _ _ _ hi] at hp ⊢; exact h i p hp
+        · cases hs
+          intro i p hp
+          by_cases hi : i = j
+          · subst hi; simp only [updLoop_same]; exact h i q hq
+          · simp only [updLoop_other _ _ _ _ hi] at hp ⊢; exact h i p hp
+      · cases hs
+    · cases hs
+  | check j =>
+    simp only [step] at hs
+    split at hs
+    · rename_i hcf
+      have other : ∀ (pc' : Pc) (hd : Option Nat), (∀ p, pc' ≠ .send p) →
+          SendHunted { s with loops := updLoop s.loops j { s.loops j with pc := pc' }, holder := hd } := by
+        intro pc' hd hpc i p hp
+        by_cases hi : i = j
+        · subst hi; simp at hp; exact absurd hp (hpc p)
+        · simp only [updLoop_other _ _ _ _ hi] at hp ⊢; exact h i p hp
+      split at hs
+      · cases hs; exact other .done _ (by intro p hp; cases hp)
+      · rename_i hcond
+        split at hs
+        · split at hs
+          · cases hs; exact other .wait _ (by intro p hp; cases hp)
+          · cases hs
+            intro i p hp
+            by_cases hi : i = j
+            · subst hi
+              simp only [updLoop_same]
+              constructor
+              · apply Classical.byContradiction; intro hm; exact hcond (Or.inl hm)
+              · cases hcl : s.closed with
+                | false => rfl
+                | true => exact absurd (Or.inr hcl) hcond
+            · simp only [updLoop_other _ _ _ _ hi] at hp ⊢; exact h i p hp
+        · cases hs; exact other .wait _ (by intro p hp; cases hp)
+    · cases hs
+
+theorem sendHunted_run {s s' : State} {tr : List Event} {os : List Out} (hI : Inv s) (h : SendHunted s)
+    (hr : run s tr = some (s', os)) : SendHunted s' := by
+  induction tr generalizing s os with
+  | nil => simp [run] at hr; obtain ⟨rfl, _⟩ := hr; exact h
+  | cons e es ih =>
+    simp only [run] at hr
+    cases hs : step s e with
+    | none => simp [hs] at hr
+    | some p =>
+      obtain ⟨s1, o⟩ := p
+      simp only [hs] at hr
+      cases hr2 : run s1 es with
+      | none => simp [hr2] at hr
+      | some q =>
+        obtain ⟨s2, os2⟩ := q
+        simp only [hr2] at hr
+        cases hr
+        exact ih (inv_step hI hs) (sendHunted_step hI h hs) hr2
+
 /-! ### silence after StopHunt / Close -/
 
 /-- no StartHunt for `mac` that would be accepted (address-less or link-local target) -/
